@@ -208,6 +208,7 @@ func (s *Sched) Quiesce(timeout time.Duration) (map[string]Status, bool) {
 	deadline := time.Now().Add(timeout)
 	spins := 0
 	var last map[string]Status
+	var since time.Time
 	for {
 		s.mu.Lock()
 		list := append([]*Proc(nil), s.list...)
@@ -242,12 +243,27 @@ func (s *Sched) Quiesce(timeout time.Duration) (map[string]Status, bool) {
 			}
 		}
 		if all {
-			// idle and gate are definitive; a "blocked" observation must be seen twice in a row to
-			// rule out a proc caught between two blocking operations (e.g. a contended mutex)
-			if !anyBlocked || (last != nil && same(last, out)) {
+			// idle and gate are definitive; a "blocked" observation must persist (same reasons) for a while to
+			// rule out a proc caught between two blocking operations: 300 us for waits on a condition
+			// variable / channel / select, 50 ms for lock-like reasons (a contended mutex whose holder
+			// is merely descheduled looks the same for a moment)
+			if !anyBlocked {
 				return out, true
 			}
-			last = out
+			if last != nil && same(last, out) {
+				need := 300 * time.Microsecond
+				for _, st := range out {
+					if st.St == "blocked" && st.Reason != "sync.Cond.Wait" && st.Reason != "select" && st.Reason != "chan receive" {
+						need = 50 * time.Millisecond
+					}
+				}
+				if time.Since(since) >= need {
+					return out, true
+				}
+			} else {
+				last = out
+				since = time.Now()
+			}
 		} else {
 			last = nil
 		}
